@@ -172,6 +172,34 @@ func TestC05(t *testing.T) {
 			faults = append(faults, Fault{Kind: "reseed", Path: "big/long.bin", Seed: 99})
 			Ev.Probe("wound_run_longer_than_4MiB")
 		}
+		twinImplied := false
+		if rapid.IntRange(0, 7).Draw(rt, "twins") == 0 {
+			twinImplied = rapid.Bool().Draw(rt, "twinimplied")
+			// twin subtrees three levels deep, one of them (or a level of it) replaced by a symlink to
+			// its twin: everything below seems to be there when looked up through the link
+			twin := func(root string, seed uint64) {
+				signed[root+"/m/s/y"] = &Entry{Kind: KFile, Data: Bytes(seed+1, 70000)}
+				signed[root+"/m/s/z"] = &Entry{Kind: KFile, Data: Bytes(seed+2, 10)}
+				signed[root+"/m/c/w"] = &Entry{Kind: KFile, Data: Bytes(seed+3, 10)}
+				signed[root+"/m/l"] = &Entry{Kind: KLink, Dest: "s/y"}
+			}
+			same := rapid.Bool().Draw(rt, "twinsame")
+			twin("t1", 5)
+			if same {
+				twin("t2", 5)
+			} else {
+				twin("t2", 9)
+			}
+			signed.Normalize()
+			which := rapid.SampledFrom([]string{"t1", "t2", "t1/m", "t1/m/s"}).Draw(rt, "twinwhich")
+			dest := map[string]string{"t1": "t2", "t2": "t1", "t1/m": "../t2/m", "t1/m/s": "../../t2/m/s"}[which]
+			if rapid.Bool().Draw(rt, "twinonly") {
+				// nothing else is wrong with the directory: the only wound there is to report is this one
+				faults = nil
+			}
+			faults = append([]Fault{{Kind: "tolink", Path: which, Dest: dest}}, faults...)
+			Ev.Probe("directory_replaced_by_symlink_to_twin_directory")
+		}
 		spec := drawSched(rt)
 		damaged, applied := ApplyFaults(signed, faults)
 		differs := signed.Diff(damaged) != ""
@@ -179,11 +207,34 @@ func TestC05(t *testing.T) {
 		dir, cleanup := RunDir()
 		defer cleanup()
 		si := signTree(signed, filepath.Join(dir, "signed"))
+		if twinImplied {
+			// the container lists what a walk of a zip archive without directory entries lists: the
+			// directories that files are directly in; t1, t1/m, t2, t2/m go without saying
+			var kept []*tlc.Dir
+			for _, d := range si.Container.Dirs {
+				switch d.Path {
+				case "t1", "t1/m", "t2", "t2/m":
+					continue
+				}
+				kept = append(kept, d)
+			}
+			si.Container.Dirs = kept
+			Ev.Probe("twin_chain_of_two_implied_directory_levels")
+		}
 		if rapid.IntRange(0, 2).Draw(rt, "shuffledirs") == 0 {
 			shuffleDirs(si, rapid.Uint64().Draw(rt, "shuffleseed"))
 		}
 		// (the directory's own name is nobody's business: percent signs, spaces, colons)
 		target := filepath.Join(dir, rapid.SampledFrom([]string{"target", "target", "target", "100% Orange Juice", "50%", "1:x y", "a#b?c"}).Draw(rt, "targetname"))
+		// ... nor is the way its path is spelled (the string is handed over as it is)
+		switch rapid.IntRange(0, 6).Draw(rt, "targetspelling") {
+		case 0:
+			target = dir + "/./" + filepath.Base(target)
+		case 1:
+			target = dir + "//" + filepath.Base(target)
+		case 2:
+			target = target + "/"
+		}
 		Must(damaged.Materialize(target), "materialize damaged")
 		countFaults(applied)
 
